@@ -61,6 +61,28 @@ class Sent:
         return "Sent%d" % self.n
 
 
+class FlakyName(str):
+    """An attribute name whose __hash__ raises at its k-th call."""
+
+    def __new__(cls, s, kth):
+        self = str.__new__(cls, s)
+        self._calls = 0
+        self._kth = kth
+        return self
+
+    def __hash__(self):
+        self._calls += 1
+        if self._calls == self._kth:
+            raise RuntimeError("hash")
+        return str.__hash__(self)
+
+    def __eq__(self, other):
+        return str.__eq__(self, other)
+
+    def __ne__(self, other):
+        return str.__ne__(self, other)
+
+
 class Prop:
     ID = ID
     LEVEL = "exploration"
@@ -149,7 +171,8 @@ class Prop:
     ADV_OPS = ["set", "set", "set", "get", "del", "list", "dict", "event", "prop", "deleg",
                "add_trait", "remove_trait", "pickle", "clone", "ctrait", "setq", "items_event",
                "reg", "unreg", "gc", "child", "evil_drop", "bad_set", "trait_set", "reset",
-               "helper", "helper", "orig_default", "default_fails", "default_fails"]
+               "helper", "helper", "orig_default", "default_fails", "default_fails",
+               "itrait_fuzz", "itrait_fuzz", "temp_delegate", "bad_name"]
 
     def gen_adv(self, seed):
         r = stream(seed, "adv")
@@ -261,6 +284,17 @@ class Prop:
             # the error by the compiled layer)
             raise exc_class(holder.get("af_exc", "AttributeError"))("no such thing")
 
+        def _get_vp(obj):
+            return obj.__dict__.get("_vp", 0)
+
+        def _set_vp(obj, v):
+            obj.__dict__["_vp"] = v
+
+        def _get_tmp(obj):
+            # a delegate that exists only for the duration of the access
+            env.point("getter:tmp")
+            return Hx()
+
         def _hx_default(obj):
             env.point("default:hx")
             return [Evil(98)]
@@ -281,6 +315,12 @@ class Prop:
                 "sup": T.Supports(T.Interface), "_sup_default": lambda obj: None,
                 "ph": T.PrototypedFrom("helper", prefix="hx"),
                 "af": T.Any(), "_af_default": _af_default,
+                # a validated property (its C setter lives in the post_setattr slot)
+                "vp": T.Property(T.Int), "_get_vp": _get_vp, "_set_vp": _set_vp,
+                # delegation through a property that returns a fresh object each time
+                "tmp": T.Property(), "_get_tmp": _get_tmp,
+                "dt": T.DelegatesTo("tmp", prefix="hx"),
+                "pt": T.PrototypedFrom("tmp", prefix="hx"),
                 "_dflt_default": _dflt_default, "_get_p": _get_p, "_set_p": _set_p,
                 "_get_cp": T.cached_property(lambda obj: (env.point("getter:cp"), obj.a)[1]),
                 "_a_changed": lambda obj, old, new: st1(), "_l_items_changed": lambda obj, ev: st2(),
@@ -571,6 +611,50 @@ class Prop:
                                 if not callable(getattr(type(t2), an, None)) or True:
                                     safe(setattr, t2, an, g)
                             safe(getattr, t2, an)
+            elif k == "itrait_fuzz":
+                # the object's OWN copy of a trait definition (instance trait): attributes
+                # deleted / assigned values of several kinds - and then the attribute is
+                # USED through the object
+                nm = ["vp", "p", "cv", "dv", "a", "dflt", "ro", "dh", "ex", "l"][op["v"] % 10]
+                it = safe(o._trait, nm, 2)
+                if it is not None:
+                    attrs = sorted(a for a in dir(it) if not a.startswith("__")
+                                   and not callable(getattr(type(it), a, None))) + ["__dict__"]
+                    an = attrs[op["n"] * 5 % len(attrs)] if op["n"] % 3 else "post_setattr"
+                    g = [None, H("hook"), 1, "s", {}][op["o"] % 5]
+                    if op["n"] % 2:
+                        safe(delattr, it, an)
+                    else:
+                        safe(setattr, it, an, g)
+                    safe(getattr, it, an)
+                    t3 = safe(copy.deepcopy, it)
+                    if t3 is not None:
+                        safe(delattr, t3, "__dict__")
+                        safe(getattr, t3, "__dict__")
+                        safe(setattr, t3, "__dict__", g)
+                        safe(getattr, t3, "desc")
+                    del t3
+                    safe(setattr, o, nm, v)
+                    safe(setattr, o, nm, 3)
+                    safe(getattr, o, nm)
+                    safe(delattr, o, nm)
+                    safe(getattr, o, nm)
+                del it
+            elif k == "temp_delegate":
+                safe(setattr, o, "dt", v)
+                safe(getattr, o, "dt")
+                safe(setattr, o, "pt", v)
+                safe(getattr, o, "pt")
+                safe(delattr, o, "pt")
+                safe(o.base_trait, "dt")
+            elif k == "bad_name":
+                # an attribute name whose hash fails at the k-th use (a str subclass)
+                for kth in (1, 2, 3):
+                    nmx = FlakyName(["a", "i", "zz", "cv"][op["n"] % 4], kth)
+                    safe(setattr, o, nmx, v)
+                    safe(getattr, o, nmx)
+                    safe(delattr, o, nmx)
+                    del nmx
             elif k == "setq":
                 safe(o.trait_setq, **{name: v})
                 safe(o.trait_set, **{name: v, "i": op["n"]})
@@ -672,6 +756,11 @@ class Prop:
                 g = 3 if op["n"] % 2 else 5
                 if st[13] is not None and callable(st[g]):
                     st[g] = -1
+                elif op["n"] % 3 == 0:
+                    # ... and a trait definition that had no handler object (or one that
+                    # lacks the method the shim looks up): the integer cannot be resolved
+                    st[g] = -1
+                    st[13] = None if op["n"] % 2 else Plain()
             new = CTrait(0)
             _, e = sut(new.__setstate__, tuple(st))
             env.log("setstate", (name, how, exc_name(e)))
